@@ -91,6 +91,12 @@ func (c Cfg) Extenders() []goldmark.Extender {
 	case "gfm+footnote":
 		return append(gfm, extension.Footnote)
 	}
+	// "gfm+<ext>": GFM plus one further extension
+	if strings.HasPrefix(c.Ext, "gfm+") {
+		one := c
+		one.Ext = strings.TrimPrefix(c.Ext, "gfm+")
+		return append(gfm, one.Extenders()...)
+	}
 	panic("unknown ext " + c.Ext)
 }
 
@@ -233,7 +239,9 @@ var mdTokens = []string{
 	"a", "b", "foo", "bar", "1", "2.", "1)", " ", "  ", "   ", "    ", "\t", "\n", "\n\n", "\r\n", "\\", "\\\n", "  \n", "`", "``", "```", "~~~", "*", "**", "_", "__", "***",
 	"[", "]", "(", ")", "[foo]", "[foo]: /url \"t\"\n", "[^1]", "[^1]: note\n", "![", "](/u)", "](<a b>)", "<", ">", "<a>", "</a>", "<!--", "-->", "<?", "?>", "<![CDATA[", "]]>", "<div>", "</div>", "<script>", "<http://a.b>", "<a@b.c>",
 	"# ", "## ", "###### ", "#", "=", "===", "-", "--", "---", "+ ", "- ", "* ", "1. ", "2) ", "> ", ">", "|", "|-|", "|:-:|", ":", ": ", "~", "~~", "[ ] ", "[x] ", "&amp;", "&#65;", "&#x41;", "&bogus;", "&", ";",
-	"\"", "'", "...", "--", "http://x.y", "www.a.b", "a@b.c", "{#id}", "{.c}", "{a=b}", "{", "}", "\x00", "\x80", "\xc3", "あ", "い", "é", "\\ ", "!", "^", "javascript:", "data:", "%41",
+	"\"", "'", "...", "--", "http://x.y", "www.a.b", "a@b.c", "{#id}", "{.c}", "{a=b}", "{", "}",
+	"![^1]", "![^u]", "[^u]", "[^1]: n\n\n", " {k=", " {k=[1,", " {k=\"v", " {#", " {.", "=", ",", "[1,2]", "\\\t", "\\\thttp://x.y/z", "\\\twww.a.b", "\\\ta@b.c",
+	"&#x100000041;", "&#4294967361;", "&#x0000000041;", "&#xFFFFFFFFF;", "[ΑΓΩ]: /g\n\n", "[αγω]", "[Straße][]", "[STRASSE]: /s\n\n", "\x00", "\x80", "\xc3", "あ", "い", "é", "\\ ", "!", "^", "javascript:", "data:", "%41",
 }
 
 func randDoc(r *RNG, maxTok int) []byte {
@@ -335,6 +343,45 @@ func docStreams(c *Ctx, o docOpts, f func(stream string, doc []byte)) {
 	}
 	for i := 0; i < o.random; i++ {
 		f("random-tokens", randDoc(c.R, tok))
+	}
+	// headings and fences with attribute blocks cut off at every point
+	if o.random > 0 {
+		frag := []string{"#id", ".c", "k=v", "k=\"v\"", "k='v'", "k=[1,2]", "k=[1,", "k=", "k", "=", "[", ",", "\"", "}", "{", " ", "data-x=1", "width=3", "1", "-", "k=1.5e", "k=\\\"", "é"}
+		for i := 0; i < o.random/4; i++ {
+			d := c.R.PickS([]string{"# t {", "## t {", "t {", "```go {", "# t {#a} {", "> # q {", "- # l {"})
+			for k := c.R.Intn(6); k > 0; k-- {
+				d += c.R.PickS(frag)
+				if c.R.Intn(3) == 0 {
+					d += " "
+				}
+			}
+			switch c.R.Intn(5) {
+			case 0:
+				d += "}"
+			case 1:
+				d += "}\n"
+			case 2:
+				d += "\n=====\n"
+			case 3:
+				d += "\n"
+			}
+			f("attribute-soup", []byte(d))
+		}
+	}
+	// documents printed from random SpecDoc trees (every construct of the C02 fragment, nested
+	// containers, both indentation spellings) and deeply nested inline constructs
+	if o.random > 0 {
+		g := &sGen{r: c.R}
+		for i := 0; i < o.random/4; i++ {
+			f("specdoc", mdOf(i%4 == 3, i%2 == 0, g.doc(1+i%3)))
+		}
+		for i := 0; i < o.random/4; i++ {
+			d := nestedInlines(c.R, 2+c.R.Intn(4))
+			if i%2 == 0 {
+				d += "\n\n[r]: /ref"
+			}
+			f("nested-inlines", []byte(d))
+		}
 	}
 	for i := 0; i < o.mutants; i++ {
 		d := corp[c.R.Intn(len(corp))]
